@@ -37,10 +37,17 @@ type sval struct {
 	holders    atomic.Int32
 	destructed atomic.Int32
 	held       atomic.Bool // handed to a caller at least once
+	plain      bool        // stored wrapped in spval: never destructed
 	st         *stress
 }
 
+// spval wraps an sval so that the pool value is NOT a Destructor (as the reverse proxy's *Host)
+type spval struct{ v *sval }
+
 func (v *sval) Destruct() error {
+	if v.plain {
+		v.st.fail("plain-value-destructed", fmt.Sprintf("stress: value %d of key %d is not a Destructor but was destructed", v.id, v.key))
+	}
 	if h := v.holders.Load(); h > 0 {
 		v.st.fail("destructed-while-held", fmt.Sprintf("stress: destructor of value %d (key %d) ran while %d caller(s) hold it", v.id, v.key, h))
 	}
@@ -157,6 +164,9 @@ func runStress(f []string) core.Outcome {
 		s.mu.Lock()
 		for _, vs := range s.byKey {
 			for _, v := range vs {
+				if v.plain {
+					continue
+				}
 				if v.held.Load() && v.destructed.Load() != 1 {
 					s.fails["released-value-not-destructed"] = fmt.Sprintf("stress: value %d of key %d was released by every holder but its destructor ran %d times", v.id, v.key, v.destructed.Load())
 				}
@@ -181,6 +191,9 @@ func (s *stress) acquired(t int, key int, x any, how string) *sval {
 		return nil
 	}
 	v, ok := x.(*sval)
+	if p, isP := x.(*spval); isP {
+		v, ok = p.v, true
+	}
 	if !ok {
 		s.fail("foreign-value", "stress: foreign value")
 		return nil
@@ -243,13 +256,23 @@ func (s *stress) worker(rng *core.Rand, iters int, mode byte) {
 				}
 			}
 		case r < 90:
-			x, _ := s.up.LoadOrStore(k, s.newVal(k))
+			nv := s.newVal(k)
+			var stored any = nv
+			if rng.Chance(1, 2) {
+				nv.plain = true
+				stored = &spval{nv}
+			}
+			x, _ := s.up.LoadOrStore(k, stored)
 			if v := s.acquired(0, k, x, "LoadOrStore"); v != nil {
 				held = append(held, h{k, v})
 			}
 		case r < 95:
 			s.up.Range(func(key, value any) bool {
-				if v, ok := value.(*sval); ok && v.destructed.Load() != 0 {
+				v, ok := value.(*sval)
+				if p, isP := value.(*spval); isP {
+					v, ok = p.v, true
+				}
+				if ok && v.destructed.Load() != 0 {
 					s.fail("range-destructed-value", fmt.Sprintf("stress: Range reported value %d of key %d whose destructor has run", v.id, v.key))
 				}
 				return true
